@@ -109,6 +109,12 @@ func busyCount(actors []*actor) int {
 // settleTimeout bounds every wait for quiescence; reaching it is an oracle failure ("stall").
 const settleTimeout = 3 * time.Second
 
+// stalls counts watchdog expiries; once a few have been reported the remaining cases of the run are skipped
+// (a broken tree must not turn the check into hours of timeouts).
+var stalls atomic.Int32
+
+func giveUp() bool { return stalls.Load() >= 4 }
+
 // settle waits until every goroutine that is inside a call is registered on a condition variable
 // (waiters() counts those) — i.e. nobody is in flight any more.  Busy goroutines are always at least as
 // many as registered waiters, equality means quiescence.
@@ -123,6 +129,8 @@ func settle(actors []*actor, waiters func() int) bool {
 			}
 		}
 		if time.Now().After(deadline) {
+			stalls.Add(1)
+
 			return false
 		}
 		if i < 300 {
